@@ -664,6 +664,12 @@ def run(ctx, selftest=False):
     r2 = ctx.tlc_expect_ok(['memcopy'], 'MC_DMA.tla', mc2, workers=W, coverage=True, timeout=1200)
     ctx.log('%s: %d distinct states, depth %d' % (mc2, r2.distinct, r2.depth))
     zeros += r2.coverage_zero()
+    # Remap is switched off (MaxRemap = 0) in the base configuration: its coverage comes from the remap configuration
+    rr = ctx.tlc_expect_ok(['memcopy'], 'MC_MemCopy.tla', 'MC_MemCopy_remap.cfg' if thorough else 'MC_MemCopy_remap1.cfg',
+                           workers=W, coverage=True, timeout=1200)
+    ctx.log('MC_MemCopy_remap (copies interleaved with Remap of live pages): %d distinct states' % rr.distinct)
+    zr = set(rr.coverage_zero())
+    zeros = [z for z in zeros if not (z.startswith('MemCopy!') and z not in zr)]
     ctx.cov['coverage_zero_actions'] = zeros
     if zeros:
         raise vlib.Infra('vacuity: actions never taken in the model: %s' % zeros)
@@ -673,6 +679,7 @@ def run(ctx, selftest=False):
     r = ctx.tlc_expect_ok(['memcopy'], 'MC_MemCopy.tla', 'MC_MemCopy_2q.cfg', workers=W, timeout=1200)
     ctx.log('MC_MemCopy_2q (two queues, a copy beside a running kernel): %d distinct states' % r.distinct)
     expect_violation(ctx, 'MC_seed_clean_2q.cfg', ['RoundTrip', 'OutsideUntouched'])
+    expect_violation(ctx, 'MC_seed_stalepage.cfg', ['RoundTrip', 'OutsideUntouched'])
     if thorough:
         r = ctx.tlc_expect_ok(['memcopy'], 'MC_MemCopy.tla', 'MC_gap_contract.cfg', workers=W, timeout=900)
         ctx.log('MC_gap_contract (memRangeOverlap gap, API contract): holds, %d states' % r.distinct)
